@@ -128,6 +128,12 @@ def corruptions(frames, k, kind):
         fs[k] = f[:4] + struct.pack(">I", R.MAX_MESSAGE_SIZE) + f[8:]
     elif kind == "len_max":
         fs[k] = f[:4] + b"\xff\xff\xff\xff" + f[8:]
+    elif kind.startswith("len_first_octet_"):
+        # a length whose first octet is one of the octets of the magic (always over the limit): whatever strips or searches the
+        # magic must not touch the octets after it
+        fs[k] = f[:4] + kind[-1].encode() + b"\x00\x00\x00" + f[8:]
+    elif kind == "magic_doubled":
+        fs[k] = b"MAJI" + f                         # the second magic is read as a length (0x4D414A49: over the limit)
     elif kind == "len+1":
         fs[k] = f[:4] + struct.pack(">I", n + 1) + f[8:]
     elif kind == "len-1":
@@ -137,7 +143,8 @@ def corruptions(frames, k, kind):
     return b"".join(fs)
 
 
-KINDS = ["none", "magic", "magic_first_byte", "len_over", "len_limit", "len_max", "len+1", "len-1", "partial_tail"]
+KINDS = ["none", "magic", "magic_first_byte", "len_over", "len_limit", "len_max", "len+1", "len-1", "partial_tail",
+         "len_first_octet_M", "len_first_octet_A", "len_first_octet_J", "len_first_octet_I", "magic_doubled"]
 
 
 def shards(tier):
